@@ -38,6 +38,28 @@ def term_classes():
 CLASSES = term_classes()
 
 
+def extra_terms():
+    """Term configurations that the default constructor arguments do not reach."""
+    from pypika_tortoise import Schema
+    from pypika_tortoise import analytics as an
+    from pypika_tortoise.terms import AggregateFunction, Function
+    t = Table("t", alias="ta")
+    return [
+        ("Function+schema", lambda: Function("norm", Field("a"), schema=Schema("util"))),
+        ("AggregateFunction+schema", lambda: AggregateFunction("SUMX", Field("a"), schema=Schema("util"))),
+        ("Sum+filter", lambda: fn.Sum(Field("a")).filter(Field("b") == 1)),
+        ("Rank+over", lambda: an.Rank().over(Field("a")).orderby(Field("b"))),
+        ("Sum+window", lambda: an.Sum(Field("a")).over(Field("b")).rows(an.Preceding(1))),
+        ("Count+distinct", lambda: fn.Count(Field("a")).distinct()),
+        ("Field+aliased-table", lambda: Field("a", table=t)),
+        ("Cast", lambda: fn.Cast(Field("a"), "INT")),
+        ("Extract", lambda: fn.Extract("YEAR", Field("a"))),
+    ]
+
+
+EXTRAS = extra_terms()
+
+
 def cands():
     a, b, c = Field("a"), Field("b"), Field("c")
     return [(), (a,), (a, b), (a, b, c), ("x",), ("x", a), ("x", a, b), (a, "x"), (a, 2), ("day", a), (a, b, "x"),
@@ -45,6 +67,8 @@ def cands():
 
 
 def make_term(ci):
+    if ci >= len(CLASSES):
+        return EXTRAS[ci - len(CLASSES)][1]()
     qn, cls = CLASSES[ci]
     name = cls.__name__
     t = Table("t")
@@ -150,7 +174,7 @@ def pin(v, n):
 
 @harness(
     prop="C12",
-    cubes={"ci": range(len(CLASSES))},
+    cubes={"ci": range(len(CLASSES) + len(EXTRAS))},
     bounds={"quick": {}, "thorough": {}},
     timeout={"quick": 120, "thorough": 300},
     witness=[dict(ci=[c.__name__ for _, c in CLASSES].index("Field"), pos=0, d=2),
@@ -164,7 +188,7 @@ def c12_positions(ci: int, pos: int, d: int) -> int:
     """
     pos, d = pin(pos, NPOS), pin(d, 6)
     with _NoTracing():
-        cname = CLASSES[ci][1].__name__
+        cname = CLASSES[ci][1].__name__ if ci < len(CLASSES) else EXTRAS[ci - len(CLASSES)][0]
         note("class", cname)
         return check("c12_positions", ci, pos, d, "al", dict(ci=ci, pos=pos, d=d, cls=cname))
 
@@ -196,15 +220,15 @@ def c12_symbolic_alias(k: int, pos: int, d: int, alias: str) -> int:
     cubes={"d": range(ND)},
     bounds={"quick": {}, "thorough": {}},
     timeout={"quick": 120, "thorough": 300},
-    witness=[dict(d=4, kind=1, in_select=True, clause=0), dict(d=0, kind=0, in_select=False, clause=1)],
+    witness=[dict(d=4, kind=1, in_select=True, clause=0, setop=False), dict(d=5, kind=0, in_select=True, clause=0, setop=True)],
     doc="GROUP BY / ORDER BY referring to an aliased term: the alias is written only if the select list defines it (and the "
         "dialect allows GROUP BY aliases), otherwise the full expression, never with an alias suffix",
 )
-def c12_references(d: int, kind: int, in_select: bool, clause: int) -> int:
+def c12_references(d: int, kind: int, in_select: bool, clause: int, setop: bool) -> int:
     """
     bound: 0 <= kind <= 3 and 0 <= clause <= 1
     """
-    kind, clause, in_select = pin(kind, 4), pin(clause, 2), bool(in_select)
+    kind, clause, in_select, setop = pin(kind, 4), pin(clause, 2), bool(in_select), bool(setop)
     with _NoTracing():
         t = Table("t")
         if kind == 0:
@@ -221,9 +245,19 @@ def c12_references(d: int, kind: int, in_select: bool, clause: int) -> int:
         if in_select:
             q = q.select(al)
         q = q.groupby(al) if clause == 0 else q.orderby(al)
-        sql = q.get_sql(dctx(d))
+        if setop:
+            # as the first operand of a set operation rendered through str() (which starts from the default context)
+            other = QS[d].from_(Table("u")).select(Field("z"), Field("y")) if in_select else QS[d].from_(Table("u")).select(Field("z"))
+            sql = str(q.union(other))
+        else:
+            sql = q.get_sql(dctx(d))
         kw = " GROUP BY " if clause == 0 else " ORDER BY "
         tail = sql[sql.index(kw) + len(kw):]
+        if setop:
+            cut = tail.find(" UNION ")
+            tail = tail[:cut]
+            if d != 1 and tail.endswith(")"):  # (MySQL does not bracket set-operation operands)
+                tail = tail[:-1]
         aq = aqchar(d)
         if in_select and not (clause == 0 and d in (4, 5)):
             want = [aq + "al" + aq, expr]  # alias reference (or, harmlessly, the full expression)
@@ -232,4 +266,4 @@ def c12_references(d: int, kind: int, in_select: bool, clause: int) -> int:
         note("sql", sql)
         note("clause_text", tail)
         note("accepted", want)
-    return verdict(tail in want, "c12_references", d=d, kind=kind, in_select=in_select, clause=clause)
+    return verdict(tail in want, "c12_references", d=d, kind=kind, in_select=in_select, clause=clause, setop=setop)
